@@ -607,7 +607,8 @@ impl MleJaccard {
         let jac = dequal as f64 / self.m as f64;
         //
         let solver = GoldenSectionSearch::new(b_inf, b_sup).unwrap();
-        let init_param = jac;
+        // the golden section search rejects a start outside its bracket
+        let init_param = jac.min(b_sup).max(b_inf);
         //
         let cost = MleCost::new(dplus as f64, dless as f64, dequal as f64, u, v, self.b);
 
